@@ -4,6 +4,7 @@ import (
 	"fmt"
 	"reflect"
 	"sort"
+	"sync"
 	"unsafe"
 )
 
@@ -55,6 +56,7 @@ type raceState struct {
 	locks   map[any]vclock
 	cancel  vclock
 	wg      vclock
+	wgs     map[*sync.WaitGroup]vclock
 	eg      vclock
 	mem     map[uintptr]*shadow
 	reports map[string]string
@@ -66,7 +68,7 @@ type raceState struct {
 func (r *Run) EnableRace() {
 	r.race = &raceState{
 		tidx: map[*Task]int{}, vc: map[*Task]vclock{}, chSend: map[uintptr]vclock{}, chRecv: map[uintptr]vclock{},
-		locks: map[any]vclock{}, cancel: vclock{}, wg: vclock{}, eg: vclock{}, mem: map[uintptr]*shadow{}, reports: map[string]string{},
+		locks: map[any]vclock{}, cancel: vclock{}, wg: vclock{}, wgs: map[*sync.WaitGroup]vclock{}, eg: vclock{}, mem: map[uintptr]*shadow{}, reports: map[string]string{},
 	}
 	r.OnAcquire = func(t *Task, m any) { r.raceAcquire(t, m) }
 	r.OnRelease = func(t *Task, m any) { r.raceRelease(t, m) }
@@ -368,4 +370,33 @@ func MP[M ~map[K]V, K comparable, V any](m M, site string, write bool) M {
 		}
 	}
 	return m
+}
+
+// WgDoneOn replaces wg.Done() (level 2): the edge Done -> Wait is kept per WaitGroup.
+func WgDoneOn(wg *sync.WaitGroup) {
+	if r := active(); r != nil {
+		r.withTask(func(rs *raceState, t *Task) {
+			v := rs.wgs[wg]
+			if v == nil {
+				v = vclock{}
+				rs.wgs[wg] = v
+			}
+			rs.publish(t, v)
+		})
+	}
+	wg.Done()
+}
+
+// WgWaitOn replaces the statement wg.Wait() (level 2).
+func WgWaitOn(site string, wg *sync.WaitGroup) {
+	Pre(site)
+	wg.Wait()
+	if r := active(); r != nil {
+		r.withTask(func(rs *raceState, t *Task) {
+			if v := rs.wgs[wg]; v != nil {
+				rs.acquire(t, v)
+			}
+		})
+	}
+	Post(site)
 }
